@@ -64,7 +64,7 @@ def evaluate(case, drv):
         res["stats"][fam + ".crash"] = 1
         res["outcome"] = "crash"
         return res
-    x = run_python(r["out"][0])
+    x = run_python(r["out"][0], timeout=0.4)   # the programs run in milliseconds; a mutant that loops for ever is not judged, only cut short
     res["evals"] = 2
     res["nontrivial"] = True
     res["stats"][fam + ".accepted"] = 1
